@@ -1,5 +1,4 @@
-import RedisGoModel.Cluster.ReadyLoop
-import RedisGoModel.Cluster.Recover
+import RedisGoModel.Props.C08ReadyDisk
 /-! # C08 — persist before externalise, as a theorem about the loop model `Cluster/ReadyLoop.lean`
 
 STATEMENTS (proofs below).
@@ -45,6 +44,111 @@ theorem safeB_iff (s : State) : safeB s = true ↔ Safe s := by
     rw [List.all_eq_true]
     intro p hpm
     simpa using hp p hpm
+
+
+/-! ## statements that keep every promise whatever the Ready is (no contract needed) -/
+
+/-- the statements that neither append a hard state or entries to the WAL nor externalise anything -/
+def Quiet : Stmt → Prop
+| .walWrite | .send | .publish | .publishSnap => False
+| _ => True
+
+/-- **every statement of the arm except `wal.Save`'s write and the three externalising ones keeps `Safe`, for every Ready and every state** —
+    saving a snapshot file, writing and syncing its WAL record, every flush, the in-memory steps, log compaction -/
+theorem quiet_stmt_safe (c : Cfg) (s : State) (st : Stmt) (hq : Quiet st) (h : Safe s) : Safe (exec c s st) := by
+  cases st with
+  | walWrite => exact absurd hq (by simp [Quiet])
+  | send => exact absurd hq (by simp [Quiet])
+  | publish => exact absurd hq (by simp [Quiet])
+  | publishSnap => exact absurd hq (by simp [Quiet])
+  | snapFile =>
+    simp only [exec]; split
+    · exact h
+    · exact safe_addFile s.rd.snap rfl (fun _ hp => hp) h
+  | snapWalWrite =>
+    simp only [exec]; split
+    · exact h
+    · exact safe_writeSnapRec _ _ rfl (fun _ hp => hp) h
+  | snapWalSync =>
+    simp only [exec]; split
+    · exact h
+    · exact safe_flush rfl (fun _ hp => hp) h
+  | walFlush =>
+    simp only [exec]; split
+    · exact safe_flush rfl (fun _ hp => hp) h
+    · exact h
+  | applySnap =>
+    simp only [exec]; split
+    · exact h
+    · exact safe_of_eq rfl (fun _ hp => hp) h
+  | walSync =>
+    simp only [exec]; split
+    · exact h
+    · exact safe_flush rfl (fun _ hp => hp) h
+  | append => exact safe_of_eq rfl (fun _ hp => hp) h
+  | trigFile =>
+    simp only [exec]; split
+    · exact safe_of_eq rfl (fun _ hp => hp) h
+    · exact safe_addFile _ rfl (fun _ hp => hp) h
+  | trigWalWrite =>
+    simp only [exec]; split
+    · exact h
+    · exact safe_writeSnapRec _ _ rfl (fun _ hp => hp) h
+  | trigWalSync =>
+    simp only [exec]; split
+    · exact h
+    · exact safe_flush rfl (fun _ hp => hp) h
+  | trigCompact =>
+    simp only [exec]; split
+    · exact h
+    · exact safe_of_eq rfl (fun _ hp => hp) h
+  | advance => exact safe_of_eq rfl (fun _ hp => hp) h
+
+/-- **snapshot_never_loses**: `maybeTriggerSnapshot` — snapshot file, WAL snapshot record, its sync, compaction of the in-memory log — with a
+    crash between any two of these steps (and any part of the unsynced record surviving) keeps the restart working and every promise kept -/
+theorem snapshot_never_loses (c : Cfg) (s : State) (h : Safe s) :
+    Safe (exec c s .trigFile) ∧ Safe (exec c (exec c s .trigFile) .trigWalWrite) ∧
+    Safe (exec c (exec c (exec c s .trigFile) .trigWalWrite) .trigWalSync) ∧
+    Safe (exec c (exec c (exec c (exec c s .trigFile) .trigWalWrite) .trigWalSync) .trigCompact) := by
+  have h1 := quiet_stmt_safe c s .trigFile trivial h
+  have h2 := quiet_stmt_safe c _ .trigWalWrite trivial h1
+  have h3 := quiet_stmt_safe c _ .trigWalSync trivial h2
+  exact ⟨h1, h2, h3, quiet_stmt_safe c _ .trigCompact trivial h3⟩
+
+/-- taking a Ready makes no promise (raft takes some back) -/
+theorem take_safe (c : Cfg) (s : State) (rd : Ready) (h : Safe s) : Safe (take c s rd) :=
+  safe_of_eq (s := s) (s' := take c s rd) rfl (fun p hp => (List.mem_filter.mp hp).1) h
+
+/-- **a crash at any moment of a safe state, whatever part of the unsynced tail survives, followed by a restart: the node starts, and the
+    restarted node's disk keeps every promise** (`Safe` is stable under crash and restart; the restarted node's view is the one `Safe` spoke of) -/
+theorem crash_restart_safe (s : State) (k : Nat) (h : Safe s) (hd : s.down = false) :
+    Safe (crashRestart s k) ∧ (crashRestart s k).down = false ∧ (crashRestart s k).owed = s.owed ∧
+    ∃ v, replay s.disk k = some v ∧ (crashRestart s k).node = Node.ofView v := by
+  obtain ⟨v, hv, hp⟩ := h k
+  unfold crashRestart
+  rw [hv]
+  refine ⟨?_, hd, rfl, v, rfl, rfl⟩
+  intro j
+  exact ⟨v, by simp only [replay_image]; exact hv, hp⟩
+
+/-- `restart_no_regress`, state form: what a restart reconstructs from a safe state has a term at least every term externalised, the vote
+    externalised for its term, a log that reaches every acknowledged index and holds every acknowledged and every applied entry (or a
+    snapshot covering it), a snapshot at least every snapshot acknowledged or applied — for every promise not taken back by raft -/
+theorem restart_no_regress (s : State) (k : Nat) (h : Safe s) :
+    ∃ v, replay s.disk k = some v ∧
+      (∀ t, .term t ∈ s.owed → t ≤ v.hs.term) ∧
+      (∀ t x, .vote t x ∈ s.owed → v.hs.term = t → v.hs.vote = x) ∧
+      (∀ i, .reach i ∈ s.owed → i ≤ v.last) ∧
+      (∀ e, .ent e ∈ s.owed → e.index ≤ v.snap.index ∨ e ∈ v.ents) ∧
+      (∀ i, .snap i ∈ s.owed → i ≤ v.snap.index) := by
+  obtain ⟨v, hv, hp⟩ := h k
+  refine ⟨v, hv, fun t ht => hp _ ht, ?_, fun i hi => hp _ hi, fun e he => hp _ he, fun i hi => hp _ hi⟩
+  intro t x hx ht
+  have := hp _ hx
+  simp only [Promise.holds] at this
+  rcases this with h1 | h1
+  · omega
+  · exact h1.2
 
 /-! ## negative theorems: the model sees the defects that were found -/
 
